@@ -509,7 +509,7 @@ func c07Sampled(t *vk.T, proto string, i int, reps int) {
 			// a parallel session with another session id supplies the foreign messages
 			fsc := mk()
 			kf := fx.NewKeyedRand(krSeed + 7)
-			var captured []*sim.Delivery
+			var captured, aborts []*sim.Delivery
 			func() {
 				kr.Uninstall()
 				kf.Install()
@@ -529,6 +529,26 @@ func c07Sampled(t *vk.T, proto string, i int, reps int) {
 					}
 					fnet.Run()
 				}
+				// a third session (yet another session id) is stopped by its user: its abort notices are foreign too
+				asc := mk()
+				opt.SessionID = append([]byte("foreign-stopped-"), sid...)
+				var anet *sim.Net
+				if asc.two {
+					anet, _, _ = fx.RunTwo(t.Rng, asc.ids[0], asc.ids[1], asc.start(asc.ids[0]), asc.start(asc.ids[1]), asc.leaders[0], asc.leaders[1], opt)
+				} else {
+					anet, _, _ = fx.RunMulti(t.Rng, asc.ids, asc.start, opt)
+				}
+				if anet != nil && len(anet.Parties) == len(asc.ids) {
+					anet.OnDeliver = func(_ *sim.Net, d *sim.Delivery) []*sim.Delivery {
+						if d.Round == 0 {
+							c := *d
+							aborts = append(aborts, &c)
+						}
+						return []*sim.Delivery{d}
+					}
+					anet.Parties[r.Intn(len(anet.Parties))].H.Stop()
+					anet.Run()
+				}
 			}()
 			n.OnDeliver = func(n *sim.Net, d *sim.Delivery) []*sim.Delivery {
 				out := []*sim.Delivery{d}
@@ -547,6 +567,14 @@ func c07Sampled(t *vk.T, proto string, i int, reps int) {
 						out = append(out, &c)
 						kinds["stale"] = true
 						t.Obs("injected_stale", 1)
+					}
+					if r.Intn(100) < foreignP && len(aborts) > 0 {
+						c := *aborts[r.Intn(len(aborts))]
+						c.Tag = "foreign-abort"
+						c.Target = nil
+						out = append(out, &c)
+						kinds["foreign-abort"] = true
+						t.Obs("injected_foreign_abort_notices", 1)
 					}
 					if r.Intn(100) < foreignP && len(captured) > 0 {
 						c := *captured[r.Intn(len(captured))]
